@@ -390,7 +390,15 @@ func replayC05(c *checkCtx, r *OblResult) *Replay {
 	default:
 		return rp
 	}
-	out, ok := runOverlayTest(repoRoot()+"/"+dir, "TestVerifReplayC05", src, 240)
+	c05Mu.Lock()
+	res, done := c05Cache[dir]
+	if !done {
+		o, k := runOverlayTest(repoRoot()+"/"+dir, "TestVerifReplayC05", src, 120)
+		res = c05Res{o, k}
+		c05Cache[dir] = res
+	}
+	c05Mu.Unlock()
+	out, ok := res.out, res.ok
 	testFile := filepath.Join(verifRoot, "replays", "C05_"+sanitize(r.Name)+"_test.go")
 	os.MkdirAll(filepath.Dir(testFile), 0o755)
 	os.WriteFile(testFile, []byte(src), 0o644)
@@ -601,3 +609,11 @@ func boundedC04(c *checkCtx) []OblResult {
 	wg.Wait()
 	return out
 }
+
+type c05Res struct {
+	out string
+	ok  bool
+}
+
+var c05Cache = map[string]c05Res{}
+var c05Mu sync.Mutex
